@@ -313,7 +313,7 @@ func c06Semantic(c *core.Ctx, idx int) {
 			pc := makeProgram(r.Split(fmt.Sprint("p", try)), fam, false, 6)
 			toks, ver = pc.root.Tokens(), pc.ver
 			for i, tk := range toks {
-				if strings.HasPrefix(tk.S, "<<<") {
+				if strings.HasPrefix(strings.TrimLeft(tk.S, "bB"), "<<<") && !tk.Str {
 					open = i
 				}
 			}
@@ -322,7 +322,7 @@ func c06Semantic(c *core.Ctx, idx int) {
 			c.Inconclusive("no program with a heredoc found")
 			return
 		}
-		label := strings.Trim(strings.TrimLeft(gen.PlainTok(toks[open].S), "<"), "'\"\r\n")
+		label := strings.Trim(strings.TrimLeft(strings.TrimLeft(gen.PlainTok(toks[open].S), "bB"), "<"), "'\"\r\n")
 		cl := -1
 		for i := open + 1; i < len(toks); i++ {
 			if toks[i].S == label {
